@@ -1816,6 +1816,12 @@ class unyt_array(np.ndarray):
         return ret
 
     def __setitem__(self, item, value):
+        if isinstance(value, (list, tuple)) and any(
+            hasattr(v, "units") for v in value
+        ):
+            # a sequence of quantities: bring it to one unit first so that it
+            # is checked and converted like an array would be
+            value = unyt_array(value)
         if hasattr(value, "units"):
             if value.units != self.units and value.units != NULL_UNIT:
                 value = value.to(self.units)
